@@ -34,6 +34,7 @@ type Summary struct {
 	Unhandled        int            `json:"oracle_unhandled"`
 	StateChecks      int            `json:"state_comparisons"`
 	Sweep            int            `json:"sweep_requests"`
+	ScanListings     int            `json:"complete_scan_listings_compared"`
 	ErrorPathRepeats int            `json:"error_path_requests_repeated"`
 	Blocks           int            `json:"multi_blocks"`
 	BlocksFailed     int            `json:"multi_blocks_with_a_failing_command"`
@@ -776,8 +777,11 @@ func runC13(seed int64, n int, grams []*hx.CmdGrammar) {
 			// scan pages follow row ids, which differ between server and twin after
 			// multi-pair writes (Go map iteration order): compare complete listings
 			// (both cursors 0) as multisets, and otherwise only the reply shape
-			if got.Arr[0].Canon() == ":0" && want.Arr[0].Canon() == ":0" {
-				gc, wc = sortedCanon(got.Arr[1], low == "hscan" || low == "zscan"), sortedCanon(want.Arr[1], low == "hscan" || low == "zscan")
+			// ... and a first page (cursor argument 0) that is not full on either side is a complete listing too
+			paired := low == "hscan" || low == "zscan"
+			if got.Arr[0].Canon() == ":0" && want.Arr[0].Canon() == ":0" || scanFromStart(args) && pageNotFull(args, got.Arr[1], paired) && pageNotFull(args, want.Arr[1], paired) {
+				gc, wc = sortedCanon(got.Arr[1], paired), sortedCanon(want.Arr[1], paired)
+				sum.ScanListings++
 			} else {
 				gc, wc = "scan-page", "scan-page"
 			}
@@ -1028,6 +1032,8 @@ var sweepSetup = map[string][][]string{
 
 // the keys a swept command draws from: the typed key with a time-to-live and a second key of the
 // same type with overlapping content (so that multi-key commands have something to aggregate)
+var wrongFam = map[string]string{"string": "list", "list": "string", "set": "hash", "hash": "zset", "zset": "set"}
+
 var sweepKeys = map[string][]string{"string": {"ks", "ks2"}, "hash": {"kh", "kh2"}, "list": {"kl", "kl2"}, "set": {"ke", "ke2"}, "zset": {"kz", "kz2"}}
 
 // handVectors are the swept invocations of a command whose parser is written by hand (no
@@ -1087,7 +1093,7 @@ func handVectors(cg *hx.CmdGrammar, fam string) [][]string {
 
 func c13Sweep(g *hx.WireGen, grams []*hx.CmdGrammar, one func(i int, args []string) bool) {
 	saved := g.Keys
-	defer func() { g.Keys = saved }()
+	defer func() { g.Keys = saved; g.CursorZero = false; g.ResetKeySeq() }()
 	i := 0
 	checkedSetup := map[string]bool{}
 	run := func(args []string) bool {
@@ -1124,9 +1130,10 @@ func c13Sweep(g *hx.WireGen, grams []*hx.CmdGrammar, one func(i int, args []stri
 			continue
 		}
 		switch cg.Name {
-		case "flushdb", "flushall", "randomkey", "spop", "srandmember", "scan":
+		case "flushdb", "flushall", "randomkey", "spop", "srandmember":
 			continue
 		}
+		g.CursorZero = true
 		opts := cg.Options()
 		variants := [][]hx.OptChoice{{}}
 		for _, a := range opts {
@@ -1164,21 +1171,59 @@ func c13Sweep(g *hx.WireGen, grams []*hx.CmdGrammar, one func(i int, args []stri
 							}
 						}
 					}
+					g.ResetKeySeq()
 					switch rep {
 					case 0:
 						g.Keys = sweepKeys[f][:1]
 					case reps - 1:
 						g.Keys = []string{"kn"}
+					case 1:
+						// first key of the command's type, the others of another type
+						g.Keys = sweepKeys[f]
+						for _, setup := range sweepSetup[wrongFam[f]] {
+							if !run(setup) {
+								return
+							}
+						}
+						g.ResetKeySeq(sweepKeys[f][0], sweepKeys[wrongFam[f]][0])
 					default:
 						g.Keys = sweepKeys[f]
 					}
-					if !run(g.VectorOpts(cg, which)) {
+					vec := g.VectorOpts(cg, which)
+					g.ResetKeySeq()
+					if !run(vec) {
 						return
 					}
 				}
 			}
 		}
 	}
+}
+
+// scanFromStart: the cursor argument of a SCAN / SSCAN / HSCAN / ZSCAN request is 0.
+func scanFromStart(args []string) bool {
+	i := 1
+	if strings.ToLower(args[0]) != "scan" {
+		i = 2
+	}
+	return len(args) > i && args[i] == "0"
+}
+
+// pageNotFull: the page holds fewer items than the request's COUNT (default 10) allows.
+func pageNotFull(args []string, page hx.RV, paired bool) bool {
+	count := 10
+	for i := 1; i+1 < len(args); i++ {
+		if strings.ToLower(args[i]) == "count" {
+			if n, err := strconv.Atoi(args[i+1]); err == nil && n > 0 {
+				count = n
+			}
+		}
+	}
+	n := len(page.Arr)
+	if paired {
+		n /= 2
+	}
+	return page.Kind == '*' && n < count
 }
 
 var knownHits = map[string]int{}
